@@ -335,6 +335,50 @@ def family_starve(tier, seed, n=None):
             ops.append({"op": "call", "call": mcall()})
             ops.append({"op": "explore", "call": mcall(), "paths": ["o1.a", "o1.b"], "max_paths": 4000 if tier == "quick" else 40000})
         out.append({"id": "S14/%s/%s/%d" % (kind, "core" if core else "s%d" % seed, t), "world": world, "ops": ops, "tags": []})
+    # (h) bounds taken from a non-random EXPRESSION that is evaluated with integers: the sum / product of a non-random list whose
+    #     length changes between calls; a signed division with a negative divisor; memberships of a signed field in a range
+    #     whose limits are unsigned fields (an unsigned comparison: the feasible values are negative); negative single values
+    m = 8 if tier == "quick" else 48
+    for t in range(m):
+        core = t < (m + 1) // 2
+        rnd = random.Random((1424 if core else 5400 + seed) * 100003 + t)
+        kind = ["nr_sum", "nr_div", "in_mixed", "in_negval"][t % 4]
+        mp = 4000 if tier == "quick" else 40000
+        ops = [{"op": "construct", "o": "o1"}]
+        if kind == "nr_sum":
+            agg = "sum" if t % 8 < 4 else "prod"
+            fields = [fld("a", 3, False), fld("b", 1, False),
+                      {"name": "nl", "kind": "list", "w": 2, "signed": False, "rand": False, "init": [1, 1], "randsz": False, "cap": 4}]
+            body = [E(B(rnd.choice(["le", "lt", "le"]), F("a"), {"k": agg, "l": "nl"}))]
+            ex = {"op": "explore", "call": mcall(), "paths": ["o1.a", "o1.b"], "max_paths": mp}
+            # (the exploration follows the edit DIRECTLY: the first call after the list changed is the one that matters)
+            ops += [{"op": "call", "call": mcall()}, dict(ex),
+                    {"op": "list", "kind": "l_append", "p": "o1.nl", "vs": [bits(rnd.choice([2, 3]), 2)]}, dict(ex), {"op": "call", "call": mcall()}, dict(ex),
+                    {"op": "list", "kind": "l_setitem", "p": "o1.nl", "i": 0, "vs": [bits(2, 2)]}, dict(ex),
+                    {"op": "list", "kind": "l_assign", "p": "o1.nl", "vs": [bits(1, 2)]}, dict(ex),
+                    {"op": "call", "call": wcall([E(B("gt", F("a"), lit(7)))])},              # a failing call in between
+                    {"op": "list", "kind": "l_extend", "p": "o1.nl", "vs": [bits(1, 2), bits(2, 2)]}, dict(ex)]
+        elif kind == "nr_div":
+            fields = [fld("a", 3, True), fld("b", 1, False), fld("c", 3, True, rand=False, init=-3), fld("d", 3, True, rand=False, init=-2)]
+            op_ = rnd.choice(["div", "div", "mod"])
+            body = [E(B(["le", "ge", "lt", "gt"][(t // 4) % 4], F("a"), B(op_, F("c"), F("d"))))]
+            ex = {"op": "explore", "call": mcall(), "paths": ["o1.a", "o1.b"], "max_paths": mp}
+            for cv, dv in [(-3, -2), (3, -2), (-4, 3), (rnd.randrange(-4, 4), rnd.choice([-3, -2, -1, 1, 2, 3])), (-4, -1)][:4 if tier == "quick" else 5]:
+                ops += [{"op": "set", "p": "o1.c", "v": bits(cv, 3)}, {"op": "set", "p": "o1.d", "v": bits(dv, 3)}, dict(ex)]
+        elif kind == "in_mixed":
+            # lo / hi are UNSIGNED fields, a is signed: the limits and a are compared as unsigned numbers
+            fields = [fld("a", 3, True), fld("b", 1, False), fld("c", 3, False, rand=False, init=4), fld("d", 3, False, rand=False, init=6)]
+            body = [E({"k": "in", "e": F("a"), "items": [{"k": "r", "lo": F("c"), "hi": F("d")}], "neg": False})]
+            ex = {"op": "explore", "call": mcall(), "paths": ["o1.a", "o1.b"], "max_paths": mp}
+            for cv, dv in [(4, 6), (2, 5), (0, 7), (5, 5)]:
+                ops += [{"op": "set", "p": "o1.c", "v": bits(cv, 3)}, {"op": "set", "p": "o1.d", "v": bits(dv, 3)}, dict(ex)]
+        else:
+            fields = [fld("a", 3, True), fld("b", 1, False), fld("c", 3, True, rand=False, init=-2)]
+            vs = rnd.sample([-4, -3, -2, -1, 1, 2, 3], 3)
+            body = [E({"k": "in", "e": F("a"), "items": [{"k": "v", "e": lit(v)} for v in vs] + ([{"k": "v", "e": F("c")}] if t % 8 >= 4 else []), "neg": False})]
+            ex = {"op": "explore", "call": mcall(), "paths": ["o1.a", "o1.b"], "max_paths": mp}
+            ops += [dict(ex), {"op": "call", "call": mcall()}, {"op": "set", "p": "o1.c", "v": bits(-4, 3)}, dict(ex)]
+        out.append({"id": "S14/%s/%s/%d" % (kind, "core" if core else "s%d" % seed, t), "world": one(fields, [blk("c1", body)]), "ops": ops, "tags": []})
     # a NON-RANDOM member object whose own block its current values violate: the block takes no part, the member's fields are
     # constants - the range inferred for the owner's fields must not be narrowed by that block
     for t in range(2 if tier == "quick" else 6):
